@@ -433,7 +433,8 @@ fn cmd_delta_cases(args: &[String]) {
     let copia = args[4].clone();
     let workdir = args[5].clone();
     let all_r: [usize; 8] = [512, 1024, 2048, 4096, 8192, 16384, 32768, 65536];
-    let main_r: Vec<usize> = if thorough { all_r.to_vec() } else { vec![512, 2048, 65536] };
+    // thorough has ~25x more cases (length-4 strings): two block sizes on every case, all eight on every 10th
+    let main_r: Vec<usize> = if thorough { vec![512, 65536] } else { vec![512, 2048, 65536] };
     let nthreads = 16usize;
     let results: Vec<Vec<Value>> = std::thread::scope(|sc| {
         let handles: Vec<_> = (0..nthreads).map(|t| {
@@ -448,7 +449,7 @@ fn cmd_delta_cases(args: &[String]) {
                     if ci % nthreads != t { continue; }
                     let b = c["B"].as_u64().unwrap() as usize;
                     let mut rs: Vec<usize> = main_r.clone();
-                    if !thorough && (ci / nthreads) % 20 == 0 { rs = all_r.to_vec(); }
+                    if (ci / nthreads) % (if thorough { 10 } else { 20 }) == 0 { rs = all_r.to_vec(); }
                     let has_c = c["ops"].as_array().unwrap().iter().any(|o| o["t"] == "C");
                     let has_l = c["ops"].as_array().unwrap().iter().any(|o| o["t"] == "L");
                     if has_c && has_l { nontrivial += 1; }
